@@ -104,6 +104,15 @@ EXTRA_ITEMS = [
     "#[ts(export)] enum E<T> { A(T), B }",
     "#[ts(export)] struct S<const N: usize> { a: [i32; N] }",
     "#[ts(export)] struct S<T, const N: usize = 2> { a: [T; N] }",
+    "#[ts(tag = \"{kind}\")] enum E { A, B { x: i32 }, C(#[ts(skip)] i32) }",
+    "#[ts(tag = \"{0}\", content = \"}{\")] enum E { A, B(i32), C { x: i32 } }",
+    "#[ts(tag = \"{}\")] struct S { a: i32 }",
+    "#[ts(rename = \"{x}\")] struct S { #[ts(rename = \"{}\")] a: i32, #[ts(rename = \"{0:?}\")] b: i32 }",
+    "enum E { #[ts(rename = \"{v}\")] A, #[ts(rename = \"}}{{\")] B { x: i32 }, #[ts(rename = \"{}\")] C(i32) }",
+    "#[ts(rename_all = \"camelCase\")] enum E { #[ts(rename = \"{a_b}\")] A { x_y: i32 } }",
+    "#[ts(export_to = \"{dir}/\")] struct S { a: i32 }",
+    "#[doc = \" docs with {braces} and {} and {0}\"] struct S { #[doc = \" {field}\"] a: i32 }",
+    "struct S { #[ts(type = \"{ [k: string]: number }\")] a: i32, #[ts(type = \"{}\")] b: i32 }",
     "struct S { a: fn(i32) -> i32 }",
     "struct S { a: *const i32 }",
     "struct S { a: [i32] }",
